@@ -330,6 +330,25 @@ func doWrite(c *mon.Ctx, k, tail, failW, ad int, r *gen.Rand) {
 		}
 	}
 	c.Class(fmt.Sprintf("Write/k=%d/fail=%s/adapter=%d", k, failClass(failW, k), ad))
+	// the producer re-uses its batch buffer: same memory, same length, new content, on the same adapter
+	if k > 0 && r.Chance(3) {
+		r.Fill(data)
+		s.got, s.failAt = nil, -1
+		n2, err2 := w.Write(data)
+		c.Eval(1)
+		c.Count("write.same_buffer_new_content")
+		ok := err2 == nil && n2 == len(data) && len(s.got) == k
+		for i := 0; ok && i < k; i++ {
+			ok = bytes.Equal(s.got[i], data[i*188:(i+1)*188])
+		}
+		if !ok {
+			w2 := wt
+			w2.Got = fmt.Sprintf("n=%d err=%v deliveries=%d", n2, err2, len(s.got))
+			w2.Want = fmt.Sprintf("n=%d err=nil deliveries=%d, each the corresponding 188 bytes", len(data), k)
+			c.Fail("reuse:Write-of-the-same-buffer-with-new-content", fmt.Sprintf("after a Write (failing packet write: %d) the caller refilled the same slice and wrote it again: %s", failW, w2.Got), w2)
+			return
+		}
+	}
 	followUp(c, w, s, r, wt)
 }
 
